@@ -6,6 +6,21 @@ data, tied data, error/background/convolved data given or not, detection
 catalog, units, label numbering), against the plain-Python definitions in
 ``mcphot/ref/srccat.py`` -- plus the footprint relation (changing every pixel
 that does not carry the label leaves the row bit-identical).
+
+Two further axes (added after seeds C07-d1 / C07-d2):
+
+* input dtype: every image argument (data, convolved data, error, background,
+  detection image) given in a narrower / byte-swapped / integer dtype
+  (``DTYPES``); the definitions are evaluated on the *stored* values in exact
+  arithmetic, so the row must not depend on the accumulator the dtype suggests;
+* degenerate-moment sources: space ``sym`` = every label map of an n x n window
+  that is invariant under the 90-degree rotation (all unions of C4 pixel orbits;
+  the complement empty or a second -- equally symmetric -- source), with
+  C4-symmetric images (equal values, generic value per orbit, pixel-centred
+  circular Gaussians): the two principal variances are equal and sxy = 0 in exact
+  arithmetic, i.e. the eigen decomposition is degenerate; data kind ``equal``
+  (constant image) on all maps of the 2x3 (thorough: 3x3) window covers single
+  pixels, pairs, lines and blocks with exactly equal values.
 """
 import itertools
 import math
@@ -19,37 +34,65 @@ PROPERTY = 'C07'
 LEVEL = 'exploration'
 RULE = ('every label map over {0,1,2} of each listed shape (all-zero map excluded: documented ValueError) x every '
         'configuration of the tier\'s list (mask x non-finite x data kind x auxiliary arrays x detection catalog x '
-        'units x label numbering x frame); one case = one SourceCatalog, every row compared with the definitions; '
+        'units x label numbering x frame x input dtype); space sym: every 90-degree-rotation-invariant label map '
+        '(unions of C4 pixel orbits, complement empty or a second source) of the n x n windows x symmetric image '
+        'kinds x symmetric mask / non-finite orbit x auxiliary arrays (x detection catalog x dtype in thorough); '
+        'one case = one SourceCatalog, every row compared with the definitions; '
         'cases are distinct product indices; a case is non-trivial when a masked/non-finite pixel lies inside a '
-        'segment or another label shares a source\'s bounding box')
+        'segment, another label shares a source\'s bounding box, the image dtype is not float64 or a source has '
+        'equal principal variances (round: no major axis)')
 ASSUMPTIONS = ['numpy element access, math.fsum and float arithmetic are trusted; no numpy reduction, scipy or '
                'photutils routine is used by the reference',
                'moment-based quantities follow the documented moment image (convolved data; pixels outside the '
                'segment, masked, non-finite or negative convolved values are zero) and the 1/12 regularisation',
                'localbkg_width = 0 (local-background subtraction needs >= 10 annulus pixels, outside this bound)',
-               'frames are at most 5x6 pixels, segments live in a 3x3 (thorough also 3x4) window']
+               'frames are at most 5x6 pixels, segments live in a 3x3 (thorough also 3x4) window; rotation-symmetric '
+               'sources live in n x n windows, n <= 5 (thorough: 6), in an (n+2) x (n+3) frame',
+               'dtype axis: all image arguments are given in the same dtype (float32, float16, big-endian float32, '
+               'int16, uint8; integer images hold truncated values and no NaN/inf); the reference evaluates the '
+               'definitions on the stored values converted exactly to Python floats']
 
 # ------------------------------------------------------------------ alphabets
 FRAMES = {'f46': ((4, 6), (0, 2)),      # non-square, dx != dy, window touches the bottom edge
           'f55': ((5, 5), (1, 1)),      # fully interior
           'f33': ((3, 3), (0, 0)),      # no padding: every source hugs the border
           'f56': ((5, 6), (1, 2))}      # for the 3x4 window (touches the right edge)
+SYM_N = {'quick': (1, 2, 3, 4, 5), 'thorough': (1, 2, 3, 4, 5, 6)}
+for _n in SYM_N['thorough']:          # rotation-symmetric windows: interior, generic (dy != dx) origin
+    FRAMES[f's{_n}'] = ((_n + 2, _n + 3), (1, 2))
 LABELINGS = {'12': (1, 2), '25': (2, 5), '73': (7, 3)}      # '73' reverses the row order
 MASKS = ('none', 'one', 'checker', 'label')
+SYM_MASKS = ('none', 'orb', 'one')          # 'orb': the innermost C4 orbit of the window (keeps the symmetry)
 NONFINITE = ('none', 'naninf')
-DATAKINDS = ('generic', 'tied')
+SYM_NONFINITE = ('none', 'orbnan')          # 'orbnan': NaN on the whole corner orbit of the window
+KINDS_GT = ('generic', 'tied')
+SYMKINDS = ('equal', 'orbit', 'orbitpm', 'gauss0.8', 'gauss1.3', 'gauss2.5')
+DATAKINDS = KINDS_GT + SYMKINDS             # order fixes the generator streams: append only
+# input dtype of every image argument; 'f8' is the base case of all other products
+DTYPES = ('f8', 'f4', 'f2', '>f4', 'i2', 'u1')
+DTYPE_CLASS = {'f4': 'float<64', 'f2': 'float<64', '>f4': 'float<64', 'i2': 'int', 'u1': 'int'}
 AUX = ('ebc', '---', 'e--', '-b-', '--c')                   # error / background / convolved given
 
 
 def cfg(mask='none', nonfinite='none', data='generic', aux='ebc', detcat=0, units=0, lab='12', frame='f46',
-        relation=0, table=0, derived=1):
+        relation=0, table=0, derived=1, dtype='f8'):
     return {'mask': mask, 'nonfinite': nonfinite, 'data': data, 'aux': aux, 'detcat': detcat, 'units': units,
-            'lab': lab, 'frame': frame, 'relation': relation, 'table': table, 'derived': derived}
+            'lab': lab, 'frame': frame, 'relation': relation, 'table': table, 'derived': derived, 'dtype': dtype}
+
+
+def dtype_product(frame, detcats=(0,), units=(0,), kinds=('generic',), auxs=AUX, dtypes=DTYPES[1:], masks=MASKS):
+    """dtype x mask x non-finite x aux (x ...) -- integer images cannot hold NaN/inf."""
+    out = []
+    for dt in dtypes:
+        nfs = NONFINITE if np.dtype(dt).kind == 'f' else ('none',)
+        for m, nf, dk, aux, dc, un in itertools.product(masks, nfs, kinds, auxs, detcats, units):
+            out.append(cfg(m, nf, dk, aux, dc, un, '12', frame, derived=0, dtype=dt))
+    return out
 
 
 def full_product(frame):
     out = []
-    for m, nf, dk, aux, dc, un, lab in itertools.product(MASKS, NONFINITE, DATAKINDS, AUX, (0, 1), (0, 1),
+    for m, nf, dk, aux, dc, un, lab in itertools.product(MASKS, NONFINITE, KINDS_GT, AUX, (0, 1), (0, 1),
                                                          LABELINGS):
         out.append(cfg(m, nf, dk, aux, dc, un, lab, frame))
     return out
@@ -73,17 +116,44 @@ def config_list(tier, space):
         base += [cfg(m, nf, detcat=1, lab='25', units=1, derived=int(m == 'label')) for m in MASKS for nf in NONFINITE]
         base += [cfg('checker', 'naninf', aux=a, frame='f55', derived=0) for a in AUX[1:]]
         base += [cfg(m, 'naninf', frame='f33', units=1, derived=0) for m in ('none', 'checker')]
+        base += [cfg(m, nf, 'equal', derived=int(m == 'none')) for m, nf in (('none', 'none'), ('one', 'none'),
+                                                                             ('checker', 'naninf'))]
+        base += [cfg('checker', 'naninf', dtype='f4', derived=0), cfg('none', 'naninf', dtype='f2', derived=0),
+                 cfg('one', 'none', dtype='>f4', derived=0), cfg('one', 'none', dtype='i2', derived=0)]
         return base
     if space == 'w23':
         if tier != 'thorough':
-            return small_product('f46')
-        return small_product('f46', labs=('12', '73'), kinds=DATAKINDS, auxs=AUX)
+            return small_product('f46') + [cfg(m, 'none', 'equal', derived=int(m == 'none'))
+                                           for m in ('none', 'one', 'checker')]
+        return (small_product('f46', labs=('12', '73'), kinds=KINDS_GT, auxs=AUX)
+                + small_product('f46', kinds=('equal',), auxs=('ebc', '---'))
+                + dtype_product('f46', dtypes=('f4', 'i2'), auxs=('ebc',)))
     if space == 'w22':
         full = small_product('f33', labs=('12', '73', '25') if tier == 'thorough' else ('12',),
-                             kinds=DATAKINDS if tier == 'thorough' else ('generic',), auxs=AUX, units=(0, 1))
-        return full + [cfg(m, nf, frame='f55', relation=1, table=1) for m in MASKS for nf in NONFINITE]
+                             kinds=KINDS_GT if tier == 'thorough' else ('generic',), auxs=AUX, units=(0, 1))
+        full += [cfg(m, nf, frame='f55', relation=1, table=1) for m in MASKS for nf in NONFINITE]
+        # input dtype axis: full product with mask x non-finite x auxiliary arrays (thorough: x detcat x units x kind)
+        if tier == 'thorough':
+            full += small_product('f33', kinds=('equal',), auxs=('ebc', '---'), units=(0, 1))
+            full += dtype_product('f33', detcats=(0, 1), units=(0, 1), kinds=KINDS_GT)
+        else:
+            full += dtype_product('f33')
+        full += [cfg(m, nf, frame='f55', relation=1, table=1, dtype=dt) for dt in (('f4', 'f2') if tier == 'thorough'
+                                                                                   else ('f4',))
+                 for m in MASKS for nf in NONFINITE]
+        return full
     if space == 'w34':
         return [cfg('checker', 'naninf', frame='f56', derived=0)]
+    if space == 'sym':
+        # frame 's?' is replaced by the frame of the window size (run_unit)
+        if tier != 'thorough':
+            return [cfg(m, 'none', dk, aux, frame='s?') for dk in SYMKINDS for m in SYM_MASKS[:2]
+                    for aux in ('ebc', '---')]
+        out = [cfg(m, nf, dk, aux, dc, frame='s?') for dk in SYMKINDS for m in SYM_MASKS for nf in SYM_NONFINITE
+               for aux in ('ebc', '---') for dc in (0, 1)]
+        out += [cfg('none', 'none', dk, aux, frame='s?', dtype=dt) for dt in ('f4', 'f2') for dk in SYMKINDS
+                for aux in ('ebc', '---')]
+        return out
     raise KeyError(space)
 
 
@@ -91,7 +161,54 @@ WINDOWS = {'w22': (2, 2), 'w23': (2, 3), 'w33': (3, 3), 'w34': (3, 4)}
 
 
 def spaces(tier):
-    return ['w22', 'w23', 'w33'] + (['w34'] if tier == 'thorough' else [])
+    return ['w22', 'w23', 'w33'] + (['w34'] if tier == 'thorough' else []) + ['sym']
+
+
+def c4_orbits(n):
+    """Pixel orbits of the n x n window under the 90-degree rotation (i, j) -> (j, n-1-i), innermost first."""
+    seen, orbits = set(), []
+    for i in range(n):
+        for j in range(n):
+            if (i, j) in seen:
+                continue
+            o, p = [], (i, j)
+            while p not in o:
+                o.append(p)
+                p = (p[1], n - 1 - p[0])
+            seen.update(o)
+            orbits.append(sorted(o))
+    c = (n - 1) / 2.0
+    orbits.sort(key=lambda o: (round((o[0][0] - c) ** 2 + (o[0][1] - c) ** 2, 6), o[0]))
+    return orbits
+
+
+def orbit_index(n):
+    idx = np.zeros((n, n), dtype=int)
+    for k, o in enumerate(c4_orbits(n)):
+        for (i, j) in o:
+            idx[i, j] = k
+    return idx
+
+
+def sym_codes(tier):
+    """(window, code) of every rotation-invariant label map: label 1 on a non-empty union of orbits, the rest of
+    the window background (fill 0) or a second source (fill 2); smallest windows / innermost orbits first."""
+    for n in SYM_N['thorough' if tier == 'thorough' else 'quick']:
+        idx = orbit_index(n)
+        k = int(idx.max()) + 1
+        for bits in range(1, 2 ** k):
+            on = np.array([(bits >> b) & 1 for b in range(k)], dtype=bool)[idx]
+            for fill in (0, 2):
+                if fill and on.all():
+                    continue
+                yield (n, n), tuple(np.where(on, 1, fill).ravel().tolist())
+
+
+def space_codes(space, tier):
+    if space == 'sym':
+        return sym_codes(tier)
+    win = WINDOWS[space]
+    return ((win, code) for code in _codes(win) if any(code))
 
 
 # ------------------------------------------------------------------ inputs
@@ -105,22 +222,49 @@ def _generic(rng, shape, lo=0.05):
     return np.sign(v) * (np.abs(v) + lo)
 
 
+def _sym_window(rng, kind, n, which):
+    """C4-symmetric n x n image of a symmetric data kind (``which``: 0 data, 1 convolved, 2 detection image).
+    Values are O(1) so that the tolerance calibration of the 3x3 spaces carries over."""
+    idx = orbit_index(n)
+    k = int(idx.max()) + 1
+    if kind == 'orbit':          # a generic positive value per orbit
+        return (np.abs(rng.normal(0.6, 2.0, size=k)) + 0.05)[idx]
+    if kind == 'orbitpm':        # generic values with sign changes per orbit (negative orbits drop out of the moments)
+        return _generic(rng, k)[idx]
+    sigma = float(kind[5:]) * (1.0, 1.25, 1.0)[which]      # the convolved image is broader
+    c = (n - 1) / 2.0
+    yy, xx = np.indices((n, n))
+    return rng.uniform(1.0, 3.0) * np.exp(-((yy - c) ** 2 + (xx - c) ** 2) / (2.0 * sigma ** 2))
+
+
 def arrays(frame, datakind, seed):
     """Seed-dependent generic images of a frame (cached per process)."""
     k = (frame, datakind, seed)
     if k not in _ARR:
-        shape = FRAMES[frame][0]
+        shape, (y0, x0) = FRAMES[frame]
         rng = np.random.default_rng([seed, sorted(FRAMES).index(frame), DATAKINDS.index(datakind), 707])
         if datakind == 'generic':
             data = _generic(rng, shape)
             conv = _generic(rng, shape)
             det = _generic(rng, shape)
-        else:
+        elif datakind == 'tied':
             # few distinct values -> ties for min/max (first occurrence) and collinear / symmetric moment images
             yy, xx = np.indices(shape)
             data = np.array([2.0, -1.0, 0.0, 2.0, 3.0])[(2 * yy + 3 * xx) % 5]
             conv = np.array([1.0, 0.0, 2.0, -1.0])[(yy + 2 * xx) % 4]
             det = np.array([1.0, 2.0, -1.0])[(yy + xx) % 3]
+        elif datakind == 'equal':
+            # constant images (a generic positive constant each): every min/max is a tie, every symmetric shape has
+            # exactly equal variances, every line an exactly singular covariance
+            data, conv, det = (np.full(shape, v) for v in rng.uniform(1.0, 3.0, size=3))
+        else:
+            # generic frame, C4-symmetric inside the (square) window of the frame
+            n = shape[0] - 2
+            if not frame.startswith('s'):
+                raise ValueError('symmetric data kinds need a square-window frame')
+            data, conv, det = (_generic(rng, shape) for _ in range(3))
+            for which, a in enumerate((data, conv, det)):
+                a[y0:y0 + n, x0:x0 + n] = _sym_window(rng, datakind, n, which)
         err = rng.uniform(0.5, 1.5, size=shape)
         bkg = rng.normal(3.0, 1.0, size=shape)
         alt = [_generic(rng, shape) * 7.0 for _ in range(3)] + [rng.uniform(2, 3, size=shape), rng.normal(-3, 1, size=shape)]
@@ -128,11 +272,26 @@ def arrays(frame, datakind, seed):
     return _ARR[k]
 
 
+def cast(a, dt):
+    """The image as the caller would hold it in dtype ``dt`` (floats: rounded to the dtype; integers: truncated
+    eighths -- |values| <= ~64*8 fits int16 -- and the absolute value for unsigned)."""
+    if a is None or dt == 'f8':
+        return a
+    d = np.dtype(dt)
+    if d.kind == 'f':
+        return a.astype(d)
+    v = np.trunc(a * 8.0)
+    if d.kind == 'u':
+        v = np.minimum(np.abs(v), 255.0)
+    return v.astype(d)
+
+
 def realise(code, win, c, seed):
     """-> dict with the label map and every input array of the case."""
     shape, (y0, x0) = FRAMES[c['frame']]
     wy, wx = win
     la = LABELINGS[c['lab']]
+    dt = c.get('dtype', 'f8')
     seg = np.zeros(shape, dtype=int)
     w = np.array(code, dtype=int).reshape(wy, wx)
     seg[y0:y0 + wy, x0:x0 + wx] = np.where(w == 1, la[0], np.where(w == 2, la[1], 0))
@@ -146,15 +305,24 @@ def realise(code, win, c, seed):
         mask[y0 + min(1, wy - 1), x0 + min(1, wx - 1)] = True
     elif c['mask'] == 'checker':
         mask = ((yy + xx) % 2).astype(bool)
+    elif c['mask'] == 'orb':   # the innermost rotation orbit of the (square) window
+        mask = np.zeros(shape, bool)
+        mask[y0:y0 + wy, x0:x0 + wx] = orbit_index(wy) == 0
     else:   # every pixel of the first label present
         first = la[0] if (seg == la[0]).any() else la[1]
         mask = seg == first
+    if c['nonfinite'] != 'none' and np.dtype(dt).kind != 'f':
+        raise ValueError('integer images cannot hold non-finite values')
     if c['nonfinite'] == 'naninf':
         data[y0, x0 + wx - 1] = np.nan          # fixed window positions; the label maps vary under them
         data[y0 + wy - 1, x0] = np.inf
+    elif c['nonfinite'] == 'orbnan':             # the whole corner orbit of the (square) window
+        oi = orbit_index(wy)
+        data[y0:y0 + wy, x0:x0 + wx][oi == oi[0, 0]] = np.nan
     e, b, cv = (ch != '-' for ch in c['aux'])
-    return {'seg': seg, 'data': data, 'mask': mask, 'error': err if e else None, 'background': bkg if b else None,
-            'conv': conv if cv else None, 'det': det if c['detcat'] else None, 'alt': alt}
+    return {'seg': seg, 'data': cast(data, dt), 'mask': mask, 'error': cast(err, dt) if e else None,
+            'background': cast(bkg, dt) if b else None, 'conv': cast(conv, dt) if cv else None,
+            'det': cast(det, dt) if c['detcat'] else None, 'alt': [cast(a, dt) for a in alt]}
 
 
 # ------------------------------------------------------------------ observation
@@ -199,11 +367,18 @@ def make_catalog(inp, c, only=None):
     return cat
 
 
-def measure(cat, n, names):
-    """name -> (float ndarray with leading axis n, unit string or None)."""
+def measure(cat, n, names, errors=None):
+    """name -> (float ndarray with leading axis n, unit string or None).  With ``errors`` (a dict) a column whose
+    read raises is recorded there (name -> exception) and left out instead of aborting the whole row."""
     out = {}
     for name in names:
-        v = getattr(cat, name)
+        try:
+            v = getattr(cat, name)
+        except Exception as e:
+            if errors is None:
+                raise
+            errors[name] = e
+            continue
         unit = None
         if hasattr(v, 'unit'):
             unit = str(v.unit)
@@ -252,6 +427,20 @@ def source_kind(r):
     return 'sharedbox' if r['shared_box'] else 'plain'
 
 
+def is_round(m):
+    """Measured on the reference moments: equal principal variances (no major axis) of a measurable source."""
+    return (not m['degenerate']) and (not math.isnan(m['eigvals'][0])) and not m['orientation_defined']
+
+
+def case_site(c, kind, m=None):
+    """Site of a row violation: a non-float64 image dtype names the dtype class (a defect that needs the narrow /
+    integer dtype), otherwise the measured kind of the source (+ detection catalog, + round source)."""
+    dt = c.get('dtype', 'f8')
+    if dt != 'f8':
+        return 'dtype:' + DTYPE_CLASS[dt]
+    return kind + (':detcat' if c['detcat'] else '') + (':round' if m is not None and is_round(m) else '')
+
+
 def check_case(acc, code, win, c, seed, sample=False):
     inp = realise(code, win, c, seed)
     seg = inp['seg']
@@ -261,18 +450,28 @@ def check_case(acc, code, win, c, seed, sample=False):
     L = {k: tolist(inp[k]) for k in ('seg', 'data', 'mask', 'error', 'background', 'conv', 'det')}
     rows = [srccat.ref_row(l, L['seg'], L['data'], L['mask'], L['error'], L['background'], L['conv']) for l in labels]
     detrows = [srccat.ref_row(l, L['seg'], L['det'], L['mask']) for l in labels] if c['detcat'] else None
-    nontrivial = any(r['npix'] != r['segment_area'] or r['shared_box'] for r in rows)
+    mrows = [(detrows[i] if c['detcat'] else r)['moment'] for i, r in enumerate(rows)]
+    nround = sum(is_round(m) for m in mrows)
+    nontrivial = (any(r['npix'] != r['segment_area'] or r['shared_box'] for r in rows) or c.get('dtype', 'f8') != 'f8'
+                  or nround > 0)
     acc.case(nontrivial=nontrivial, sample=case if sample else None)
+    if nround:
+        acc.counters['round_sources'] += nround
     cols = columns(c)
+    dsfx = '' if c.get('dtype', 'f8') == 'f8' else ':' + case_site(c, '')
+    errors = {}
     try:
         cat = make_catalog(inp, c)
         n = len(labels)
-        got = measure(cat, n, cols)
+        got = measure(cat, n, cols, errors)
         catlabels = np.atleast_1d(cat.labels).tolist()
         nl = cat.nlabels
     except Exception as e:   # a valid catalog: every read must succeed
-        acc.violation('raises', f'catalog:{type(e).__name__}', case, repr(e), 'no exception')
+        acc.violation('raises', f'catalog:{type(e).__name__}{dsfx}', case, repr(e), 'no exception')
         return
+    for name, e in errors.items():   # ... column by column (the other columns are still compared)
+        acc.violation('raises', f'{name}:{type(e).__name__}{dsfx}', case, repr(e), 'no exception')
+    cols = tuple(name for name in cols if name not in errors)
     if catlabels != labels or nl != len(labels):
         acc.violation('labels', 'row-order', case, catlabels, labels)
         return
@@ -280,7 +479,11 @@ def check_case(acc, code, win, c, seed, sample=False):
 
     def bad(name, i, obs, exp, site=None, detail=''):
         kind = source_kind(rows[i])
-        acc.violation(name, site or (kind + (':detcat' if c['detcat'] else '')), dict(case, label=labels[i]),
+        if site is None:
+            site = case_site(c, kind, mrows[i])
+        elif dsfx:
+            site += dsfx
+        acc.violation(name, site, dict(case, label=labels[i]),
                       obs, exp, detail or f'label {labels[i]} ({kind}) {name}')
 
     for i, r in enumerate(rows):
@@ -357,7 +560,7 @@ def check_case(acc, code, win, c, seed, sample=False):
         unit = got[name][1]
         want = ('Jy' if c['units'] else None) if name in FLUX_UNIT else OTHER_UNIT.get(name)
         if unit != want:
-            acc.violation('unit', name, case, unit, want)
+            acc.violation('unit', name + dsfx, case, unit, want)
     # bounding boxes, slices and the total mask of the cutouts
     try:
         # a catalog built from a SegmentationImage is never scalar: these are lists with one entry per source
@@ -380,9 +583,10 @@ def check_case(acc, code, win, c, seed, sample=False):
                 if not np.array_equal(np.ma.getmaskarray(arr[i]), want):
                     bad(f'{nm}-mask', i, np.ma.getmaskarray(arr[i]).astype(int).tolist(), want.astype(int).tolist())
     except Exception as e:
-        acc.violation('raises', f'cutouts:{type(e).__name__}', case, repr(e), 'no exception')
-    acc.outcome(got['segment_flux'][0].tobytes() + got['centroid'][0].tobytes())
-    if c['table']:
+        acc.violation('raises', f'cutouts:{type(e).__name__}{dsfx}', case, repr(e), 'no exception')
+    if 'segment_flux' in got and 'centroid' in got:
+        acc.outcome(got['segment_flux'][0].tobytes() + got['centroid'][0].tobytes())
+    if c['table'] and not errors:
         check_table(acc, cat, got, n, case)
     if c['relation']:
         check_relation(acc, inp, c, labels, got, rows, case, cols)
@@ -423,20 +627,21 @@ def check_relation(acc, inp, c, labels, got, rows, case, cols):
     a = inp['alt']
     d2 = np.where(out, a[0], inp['data'])
     ys, xs = np.nonzero(out)
-    if len(ys):
+    if len(ys) and d2.dtype.kind == 'f':
         d2[ys[0], xs[0]] = np.nan
         d2[ys[-1], xs[-1]] = -np.inf
     alt['data'] = d2
     for k, j in (('conv', 1), ('error', 3), ('background', 4), ('det', 2)):
         if inp[k] is not None:
             alt[k] = np.where(out, a[j], inp[k])
-    if inp['conv'] is not None and len(ys):
+    if inp['conv'] is not None and len(ys) and alt['conv'].dtype.kind == 'f':
         alt['conv'][ys[-1], xs[-1]] = np.nan
     try:
         cat2 = make_catalog(alt, c)
         got2 = measure(cat2, len(labels), cols)
     except Exception as e:
-        acc.violation('raises', f'relation:{type(e).__name__}', dict(case, label=l), repr(e), 'no exception')
+        acc.violation('raises', f'relation:{type(e).__name__}' + ('' if c.get('dtype', 'f8') == 'f8' else ':dtype'),
+                      dict(case, label=l), repr(e), 'no exception')
         return
     acc.counters['relation_catalogs'] += 1
     for name in cols:
@@ -444,7 +649,8 @@ def check_relation(acc, inp, c, labels, got, rows, case, cols):
             continue
         x, y = got[name][0][i], got2[name][0][i]
         if not np.array_equal(x, y, equal_nan=True):
-            acc.violation('footprint', name + (':detcat' if c['detcat'] else ''), dict(case, label=l),
+            acc.violation('footprint', name + (':detcat' if c['detcat'] else '')
+                          + ('' if c.get('dtype', 'f8') == 'f8' else ':dtype'), dict(case, label=l),
                           np.asarray(y).tolist(), np.asarray(x).tolist(),
                           f'row of label {l} changed when only pixels not carrying label {l} were changed')
 
@@ -457,8 +663,7 @@ def _codes(win):
 def plan(tier, seed):
     units = []
     for sp in spaces(tier):
-        win = WINDOWS[sp]
-        ncodes = 3 ** (win[0] * win[1])
+        ncodes = sum(1 for _ in space_codes(sp, tier)) if sp == 'sym' else 3 ** (WINDOWS[sp][0] * WINDOWS[sp][1])
         ncfg = len(config_list(tier, sp))
         nsh = max(1, min(256, (ncodes * ncfg) // 1500))
         for j in range(nsh):
@@ -469,12 +674,15 @@ def plan(tier, seed):
 def run_unit(unit, tier, seed):
     acc = Acc()
     sp = unit['space']
-    win = WINDOWS[sp]
     cfgs = config_list(tier, sp)
-    for i, code in enumerate(_codes(win)):
+    # (shards of the window spaces are taken on the index over ALL codes, the all-zero map included, as before)
+    codes = sym_codes(tier) if sp == 'sym' else ((WINDOWS[sp], code) for code in _codes(WINDOWS[sp]))
+    for i, (win, code) in enumerate(codes):
         if i % unit['nshards'] != unit['shard'] or not any(code):
             continue
         for j, c in enumerate(cfgs):
+            if c['frame'] == 's?':
+                c = dict(c, frame=f's{win[0]}')
             check_case(acc, code, win, c, seed, sample=((i * 31 + j) % 4001 == 17))
     return acc
 
@@ -491,16 +699,26 @@ def describe(tier, seed):
     sp = {}
     total = 0
     for s in spaces(tier):
-        win = WINDOWS[s]
-        ncodes = 3 ** (win[0] * win[1]) - 1
-        ncfg = len(config_list(tier, s))
-        sp[s] = {'window': list(win), 'label_maps': ncodes, 'configurations': ncfg, 'catalogs': ncodes * ncfg}
+        ncodes = sum(1 for _ in space_codes(s, tier))
+        cl = config_list(tier, s)
+        ncfg = len(cl)
+        sp[s] = {'label_maps': ncodes, 'configurations': ncfg, 'catalogs': ncodes * ncfg,
+                 'dtype_configurations': sum(1 for c in cl if c['dtype'] != 'f8'),
+                 'data_kinds': sorted({c['data'] for c in cl}, key=DATAKINDS.index)}
+        if s == 'sym':
+            ns = SYM_N['thorough' if tier == 'thorough' else 'quick']
+            sp[s]['windows'] = [[n, n] for n in ns]
+            sp[s]['orbits_per_window'] = [len(c4_orbits(n)) for n in ns]
+            sp[s]['label_maps_rule'] = 'sum over n of (2^orbits - 1) unions x fill {0, 2}, minus the full windows with fill 2'
+        else:
+            sp[s]['window'] = list(WINDOWS[s])
         total += ncodes * ncfg
     return {'alphabet': {'label symbols': [0, 1, 2], 'frames': {k: {'shape': list(v[0]), 'window_origin_yx': list(v[1])}
                                                                 for k, v in FRAMES.items()},
                          'labelings': {k: list(v) for k, v in LABELINGS.items()}, 'mask': list(MASKS),
-                         'nonfinite': list(NONFINITE), 'data': list(DATAKINDS), 'aux(error,background,convolved)': list(AUX),
-                         'detcat': [0, 1], 'units': [0, 1]},
+                         'mask(sym)': list(SYM_MASKS), 'nonfinite': list(NONFINITE), 'nonfinite(sym)': list(SYM_NONFINITE),
+                         'data': list(DATAKINDS), 'aux(error,background,convolved)': list(AUX),
+                         'detcat': [0, 1], 'units': [0, 1], 'dtype(all image arguments)': list(DTYPES)},
             'spaces': sp, 'catalogs_total': total,
             'checked_columns': list(CORE + DERIVED) + ['bbox', 'slices', 'data_ma.mask', 'error_ma.mask', 'labels'],
             'tolerance': {'default': TOL, 'eccentricity/ellipticity/elongation': TOL_SQRT, 'footprint relation': 0}}
